@@ -123,7 +123,7 @@ META = {
     "C09": {
         "level": "exploration",
         "evaluations": ["checks_run"],
-        "required": ["verdict_pass", "verdict_only_generated", "family:failfiles", "family:failing", "family:realT"],
+        "required": ["verdict_pass", "verdict_only_generated", "family:failfiles", "family:failing", "family:realT", "family:flaky-failfile", "deadline_all_skipped"],
         "show": ["checks_run", "verdict_pass", "verdict_only_generated", "invocations"],
         "rule": "never-failing properties with skip pattern sigma in {never, always, every j-th, data-dependent 5-95%, 9 of 10} x -rapid.checks N in "
                 "{1,2,3,5,17,100,1000}: count completed/skipped invocations by stream kind against TB verdict (exactly N completed then stop, or "
@@ -218,7 +218,7 @@ META = {
     "C17": {
         "level": "exploration",
         "evaluations": ["directories"],
-        "required": ["directories", "files_planted", "ignore_log_lines", "kind:truncated", "kind:bitflip", "kind:now-passes", "kind:overrun", "kind:directory", "kind:other-version"],
+        "required": ["directories", "files_planted", "ignore_log_lines", "other_version_still_failing", "explicit_history_runs", "explicit_unusable_plus_valid", "kind:truncated", "kind:bitflip", "kind:now-passes", "kind:overrun", "kind:directory", "kind:other-version"],
         "show": ["directories", "files_planted", "ignore_log_lines", "mutated_file_still_usable"],
         "rule": "1-6 unusable files of 20 kinds (empty, random bytes, directory, dangling symlink, other version, missing/extra '#', bad/huge seed, "
                 "bad/huge/negative/one-character word, truncations and bit flips of a genuine file, genuine file whose case now passes / overruns / is "
@@ -286,10 +286,10 @@ META = {
     },
     "C18": {
         "level": "exploration",
-        "evaluations": ["ranges8", "band_ranges", "float_band_runs", "edge_ranges", "fresh_pairs", "concurrent_fresh_rounds"],
-        "required": ["ranges8", "band_ranges", "float_band_runs", "edge_ranges", "fresh_pairs", "concurrent_fresh_rounds", "bands_required", "edges_required",
+        "evaluations": ["ranges8", "band_ranges", "float_band_runs", "float_ulp_ranges", "edge_ranges", "fresh_pairs", "concurrent_fresh_rounds"],
+        "required": ["ranges8", "band_ranges", "float_band_runs", "float_ulp_ranges", "stored_makecheck_triples", "edge_ranges", "fresh_pairs", "concurrent_fresh_rounds", "bands_required", "edges_required",
                      "fresh_sequences_compared_across_processes"],
-        "show": ["ranges8", "band_ranges", "bands_required", "edge_ranges", "draws", "max:draws_to_cover_8bit_range", "max:draws_to_hit_all_bands",
+        "show": ["ranges8", "band_ranges", "bands_required", "float_ulp_ranges", "max:draws_to_cover_float_ulp_range", "edge_ranges", "draws", "max:draws_to_cover_8bit_range", "max:draws_to_hit_all_bands",
                  "max:draws_to_hit_edges", "concurrent_checks", "fresh_sequences_compared_across_processes"],
         "rule": "(a) 8-bit ranges [a,b] of Uint8Range/Int8Range (ByteRange sampled): draw until every value was seen, cap 2*10^5 (quick: every 16th range, "
                 "thorough: all 65,792); (b) 64-bit ranges placed at type extremes / crossing zero / random: offset from the bound nearer to zero split into "
